@@ -294,7 +294,7 @@ class EngineBase:
         if ty.startswith('ref:') or ty.startswith('opt:ref:'):
             return Sym('ref', z3.Select(self.heap_arr(st, cls, field, I), r), ty.split('ref:')[1])
         if ty.startswith('optnum'):
-            return Sym('num', z3.Select(self.heap_arr(st, cls, field, R), r))
+            return OptNum(z3.Select(self.heap_arr(st, cls, field, R), r), z3.Select(self.heap_arr(st, cls, field + '.none', B), r))
         if ty.startswith('list:') or ty.startswith('set:'):
             l = ListObj(z3.Select(self.heap_arr(st, cls, field + '.cnt', IntArr), r),
                         z3.Select(self.heap_arr(st, cls, field + '.n', I), r), ty.split(':', 1)[1], isset=ty.startswith('set:'))
@@ -374,6 +374,9 @@ class EngineBase:
     # ---------------------------------------------------------------- coercions
     def num(self, v):
         """z3 Real term of a numeric value"""
+        if isinstance(v, OptNum):
+            self.check_or_raise(z3.Not(v.none), 'TypeError', None, 'None used as a number')
+            return to_real(v.t)
         if isinstance(v, Sym):
             if v.kind == 'num':
                 return to_real(v.t)
